@@ -181,4 +181,17 @@ example : ((Lru.init 3).run [.set 0 (.tok 0) (some 8) .always, .set 1 (.tok 1) n
 
 example : [Op.get 0] <+: [Op.get 0, Op.clear] := ⟨[Op.clear], rfl⟩
 
+/-- premises of `eviction_is_recorded` / `leaves_only_by` are satisfiable, by eviction (key 0 is held and is
+no longer held after the write of key 2) … -/
+example : let x := ((Lru.init 2).run [.set 0 (.tok 0) none .always, .set 1 (.tok 1) none .always]).1
+    0 ∈ keys x.mem.store ∧ 0 ∉ keys (x.gSet 2 (.tok 2) none).mem.store ∧
+    0 ∉ keys (x.step (.set 2 (.tok 2) none .always)).1.mem.store ∧
+    (x.step (.set 2 (.tok 2) none .always)).1.evs = [(0, [2, 1, 0])] := by decide
+
+/-- … and by the other branch: the read finds key 0 expired, collects it, and puts it on the `gone` list -/
+example : let x := ((Lru.init 2).run [.set 0 (.tok 0) (some 8) .always, .adv 8]).1
+    0 ∈ keys x.mem.store ∧ 0 ∉ keys (x.step (.get 0)).1.mem.store ∧ 0 ∈ (x.step (.get 0)).1.gone := by decide
+
+example : (keys ([(3, ⟨.nil, some 4⟩), (1, ⟨.nil, none⟩)] : Store)).Nodup := by decide
+
 end CashewsVerif.Props.C11
